@@ -373,8 +373,11 @@ def mon_c08x(case, obs, prefix):
 def mon_c09(case, obs, prefix):
     bad = []
     ndatagrams = 0
+    lost = set()       # requests whose first transmission failed in the socket (wfail events): nothing to be identical to yet
     for i, ev, o, prev, prev_dp, dup in walk(case, obs, prefix):
         sends = o["sends"] or []
+        if ev["t"] == "report" and ev.get("wfail") and not sends and not o.get("fault"):
+            lost |= {e["key"] for e in (o["dump"].get("tx") or [])} - {e["key"] for e in (prev.get("tx") or [])}
         first_idx = ndatagrams
         ndatagrams += len(sends)
         if o.get("fault"):
@@ -401,8 +404,9 @@ def mon_c09(case, obs, prefix):
                     bad.append((i, "expiry for an unknown transmit transaction had an effect"))
             elif e0["count"] < case["maxretrans"]:
                 e1 = tx_entry(d, k)
-                if len(sends) != 1 or sends[0]["class"] >= first_idx or sends[0]["seq"] != ev["seq"]:
+                if len(sends) != 1 or (sends[0]["class"] >= first_idx and k not in lost) or sends[0]["seq"] != ev["seq"]:
                     bad.append((i, "expiry did not retransmit the request byte-identically"))
+                lost.discard(k)
                 if e1 is None or e1["count"] != e0["count"] + 1:
                     bad.append((i, "retry counter not advanced by one"))
             else:
